@@ -988,6 +988,9 @@ func callBuiltin(caller *frame, callpos token.Pos, fn *ssa.Builtin, args []value
 
 	case "close": // close(chan T)
 		chanClose(args[0].(*vchan))
+		if caller.i.x.coop() {
+			caller.i.x.progress()
+		}
 		return nil
 
 	case "delete": // delete(map[K]value, K)
